@@ -730,7 +730,7 @@ func (e *Eng) ghostAssign(l ast.Expr, v Val, c *ctx) {
 		if cur.K == KGMap {
 			v.GKey, v.GVal = cur.GKey, cur.GVal
 		}
-		c.st.ghost[l.Name] = v
+		c.st.ghost[l.Name] = e.nameTerm(c.st, v, "g."+l.Name)
 	case *ast.IndexExpr:
 		id, ok := l.X.(*ast.Ident)
 		if !ok {
